@@ -15,7 +15,7 @@ pub const ISOLATED_TICK_CAP: u64 = 50_000;
 /// per-call tick cap of an isolated evaluation: a call that needs more never "returns" in the property's sense
 pub fn isolated_tick_cap() -> u64 {
     if crate::tick::bb_guards() > 0 {
-        ISOLATED_TICK_CAP * 64
+        ISOLATED_TICK_CAP * 256
     } else {
         ISOLATED_TICK_CAP
     }
